@@ -37,7 +37,7 @@ fn split_blocks(text: &str) -> Vec<String> {
     let mut n_in_block = 0usize;
     for line in text.lines() {
         let head = line.split(' ').next().unwrap_or("");
-        let is_input = matches!(head, "dec" | "txt" | "json" | "decmany" | "declist" | "nid" | "ck");
+        let is_input = matches!(head, "dec" | "txt" | "json" | "jsondoc" | "decmany" | "declist" | "nid" | "ck");
         if is_input {
             let buf = if head == "dec" {
                 // keep the item and its suffixed variants together (prefix locality needs both)
@@ -194,6 +194,12 @@ fn main() {
                         } else {
                             gen_dec::parse_under(get("scheme"), &s, false, &mut out);
                         }
+                    }
+                    "jsondoc" => {
+                        out.push_str(line);
+                        out.push('\n');
+                        let d = String::from_utf8_lossy(&unhx(get("doc"))).to_string();
+                        gen_dec::parse_doc_under(get("scheme"), &d, &mut out);
                     }
                     "nid" => gen_misc::nid_exec(get("op"), &unhx(get("in")), &mut out),
                     "ck" => gen_misc::ck_line(get("kind"), &unhx(get("in")), &mut out),
